@@ -20,7 +20,8 @@ ASSUMPTIONS = ["quiescence = 40 virtual seconds after close() returned", "status
 REQUIRED_COUNTERS = ["sessions", "close_injected", "state_samples_after_close", "status_traces_checked"]
 SHARD_TIMEOUT = {"quick": 400, "thorough": 3000}
 
-SHAPES = ("plain", "refusing", "slow_transport", "fault_reconnect", "slow_receive_cb", "send", "after_close_calls")
+SHAPES = ("plain", "refusing", "slow_transport", "fault_reconnect", "slow_receive_cb", "send", "after_close_calls",
+          "send_fault_read_silent")
 
 
 def shards(tier, seed):
@@ -69,6 +70,15 @@ def session(kind, shape, step, scb):
             for _ in range(3):
                 sim.spawn("send", make_send_message(kind))
                 await asyncio.sleep(0.01)
+        if shape == "send_fault_read_silent":
+            # only the write direction of the link breaks (drain() raises, nothing arrives on the read side): the
+            # reconnect then finds the previous receive path still alive. Harsher than what asyncio's own transports
+            # do (they tear both directions down together); close() must be final under it as well.
+            await asyncio.sleep(0.1)
+            if sim.conns and kind != "actisense":
+                sim.conns[-1].drain_fails = 0
+                sim.spawn("send", make_send_message(kind))
+                await asyncio.sleep(0.2)
         if shape == "after_close_calls":
             await asyncio.sleep(0.3)
         # wait until close() has been issued and returned, then poke the closed client
